@@ -124,7 +124,7 @@ def obj_eq(ctx, fr, a, b):
         y = b if x is a else a
         f, owner = I_.mro_lookup(x.cls, "__eq__")
         if isinstance(f, types.FunctionType) and I_.interpretable(ctx, f):
-            return truth(call_function(ctx, fr, f, [x, y], owner=owner))
+            return I_.truth_of(ctx, fr, call_function(ctx, fr, f, [x, y], owner=owner))
         return x is y
     if is_symbolic_value(a) or is_symbolic_value(b):
         return a is b
@@ -156,7 +156,7 @@ def ref_eq(ctx, fr, a, b):
         fr.g = AND(g0, cond)
         if live(ctx, fr) is False:
             continue
-        v = truth(call_function(ctx, fr, f, [Ref(ta, (c,)), b], owner=owner))
+        v = I_.truth_of(ctx, fr, call_function(ctx, fr, f, [Ref(ta, (c,)), b], owner=owner))
         res = ITE(cond, v, res)
     fr.g = g0
     return res
@@ -171,10 +171,10 @@ def contains(ctx, fr, container, x):
         f, owner = I_.mro_lookup(container.cls, "__contains__")
         if f is None:
             raise Unsupported("no __contains__ on %s" % container.cls)
-        return truth(call_function(ctx, fr, f, [container, x], owner=owner))
+        return I_.truth_of(ctx, fr, call_function(ctx, fr, f, [container, x], owner=owner))
     if isinstance(container, Ref):
         m = I_.get_attr(ctx, fr, container, "__contains__")
-        return truth(call(ctx, fr, m, [x], {}))
+        return I_.truth_of(ctx, fr, call(ctx, fr, m, [x], {}))
     if isinstance(container, HeapSet):
         return heapset_has(ctx, fr, container, x)
     if isinstance(container, PinMap):
@@ -1236,7 +1236,7 @@ def local_truth(ctx, fr, v):
         f, owner = I_.mro_lookup(v.cls, nm)
         if f is not None and isinstance(f, types.FunctionType):
             r = call_function(ctx, fr, f, [v], owner=owner)
-            return truth(r)
+            return I_.truth_of(ctx, fr, r)
     return True
 
 
